@@ -940,7 +940,7 @@ where
     P: Fn(bool, &mut State) -> Result<T, Error>,
 {
     fn eval(&self, args: &mut State) -> Result<T, Error> {
-        let res = (self.inner)(self.failfast, args);
+        let res = (self.inner)(self.failfast || args.failfast, args);
         args.current = None;
         res
     }
@@ -1159,6 +1159,7 @@ where
             // without multi step approach first command line also parses into 42
             let mut scratch = this_arg.clone();
             scratch.set_scope(start..start + width);
+            scratch.failfast = true;
             let before = scratch.len();
 
             // nothing to consume, might as well skip this segment right now
